@@ -940,10 +940,12 @@ impl Tracker {
         }
         match op {
             Op::Initialise { hash, ts, height } => {
-                if self.blocks.is_empty() && *height == 0 {
-                    let h = resolve_hash(0, hash);
+                // genesis is created when the named height is the next one (block 0 on an empty
+                // database, or later on a chain started by brc20_mine); otherwise the call only checks
+                if self.blocks.len() as u64 == *height {
+                    let h = resolve_hash(*height, hash);
                     self.open = BlockRec::default();
-                    self.push_block(BlockRec { height: 0, hash: h, ts: *ts, ops: vec![idx], receipts: vec![], how: "init" });
+                    self.push_block(BlockRec { height: *height, hash: h, ts: *ts, ops: vec![idx], receipts: vec![], how: "init" });
                 }
             }
             Op::Mine { n, ts } => {
